@@ -17,6 +17,7 @@ pub mod c38;
 pub mod c41;
 pub mod c42;
 pub mod cfgdiff;
+pub mod sem;
 pub mod shapes;
 
 type CheckFn = fn(Tier, u64) -> i32;
@@ -29,11 +30,20 @@ fn table() -> Vec<(&'static str, CheckFn)> {
         ("C05", c05::run),
         ("C06", c06::run),
         ("C07", cfgdiff::run_c07),
+        ("C08", sem::run_c08),
         ("C11", c11::run_c11),
         ("C12", c12::run),
         ("C14", c11::run_c14),
         ("C15", c15::run),
         ("C16", c16::run),
+        ("C21", sem::run_c21),
+        ("C22", sem::run_c22),
+        ("C23", sem::run_c23),
+        ("C24", sem::run_c24),
+        ("C25", sem::run_c25),
+        ("C26", sem::run_c26),
+        ("C27", sem::run_c27),
+        ("C28", sem::run_c28),
         ("C31", c03::run_c31),
         ("C33", c33::run),
         ("C37", c37::run),
@@ -41,6 +51,7 @@ fn table() -> Vec<(&'static str, CheckFn)> {
         ("C41", c41::run),
         ("C42", c42::run),
         ("C43", c38::run_c43),
+        ("C44", sem::run_c44),
     ]
 }
 
